@@ -481,12 +481,41 @@ class CallMixin:
                 else:
                     obj.extra["ctor_args"] = (tuple(pos), dict(kw))
             elif is_dc:
-                fields = [k for k, s in ci.assigns.items() if isinstance(s, ast.AnnAssign)]
+                fields = []
+                for c_ in reversed(self.mro(ci)):          # inherited fields first, as dataclasses order them
+                    for k, s_ in c_.assigns.items():
+                        if isinstance(s_, ast.AnnAssign) and k not in fields and \
+                                "ClassVar" not in ast.unparse(s_.annotation):
+                            fields.append(k)
+                given = set()
                 for i, p in enumerate(pos):
                     if i < len(fields):
                         st.heap[(obj.id, fields[i])] = p
+                        given.add(fields[i])
                 for k, v in kw.items():
-                    st.heap[(obj.id, k)] = v
+                    if k != "**":
+                        st.heap[(obj.id, k)] = v
+                        given.add(k)
+                for k in fields:
+                    if k in given:
+                        continue
+                    decl = next((c_.assigns[k] for c_ in self.mro(ci) if k in c_.assigns), None)
+                    dv = decl.value if decl is not None else None
+                    if dv is None:
+                        continue
+                    if isinstance(dv, ast.Call) and ast.unparse(dv.func).split(".")[-1] == "field":
+                        kwd = {k_.arg: k_.value for k_ in dv.keywords}
+                        if "default" in kwd:
+                            st.heap[(obj.id, k)] = self.eval_in_module(ci.module, kwd["default"])
+                        elif "default_factory" in kwd:
+                            fac = self.eval_in_module(ci.module, kwd["default_factory"])
+                            st.heap[(obj.id, k)] = self.call(fac, [], {}, st, fr, site)
+                    else:
+                        st.heap[(obj.id, k)] = self.eval_in_module(ci.module, dv)
+                post = self.find_method(ci, "__post_init__")
+                if post is not None:
+                    env = self._class_env.get(id(post.cls), {})
+                    self.call_repo(post, env, None, [obj], {}, st, fr, site)
             elif pos or kw:
                 obj.extra["ctor_args"] = (tuple(pos), dict(kw))
         return obj
